@@ -45,7 +45,7 @@ func has(flags []string, f string) bool {
 }
 
 func checkC10(c *Ctx) error {
-	c.Rule = "fault classes x flag combinations x pre-states of the -o path, every run observed by the CLI-contract monitor (exit status in {0,1}; report steps/END marks/numbered list consistent; list length = failing step's count; stat+sha256 of -o before/after; on exit 0 the file is byte-identical to a clean run into a fresh directory; --quiet prints nothing and has the same exit status and file effect). Fault classes: input is a directory, dangling symlink, unparsable YAML, file matched by two patterns, empty glob, invalid glob, grammar error, token error, cycle, scope conflict, missing parameter, missing service, formatting error (keyword package name), missing output directory, output path is a directory, plus valid/empty inputs. Thorough adds system-call fault injection with strace (n-th openat/read on inputs, openat/write on -o failing with EACCES/EIO/EMFILE/EROFS/ENOSPC). distinct = distinct (fault class, flags, pre-state, config); non-trivial = the run involves a fault or a pre-existing -o"
+	c.Rule = "fault classes x flag combinations x pre-states of the -o path, every run observed by the CLI-contract monitor (exit status in {0,1}; report steps/END marks/numbered list consistent; list length = failing step's count; stat+sha256 of -o before/after; on exit 0 the file is byte-identical to a clean run into a fresh directory; --quiet prints nothing and has the same exit status and file effect). Fault classes: input is a directory, dangling symlink, unparsable YAML, well-formed YAML of the wrong shape (one / many mismatches, one / two files), duplicate keys, unknown fields, several documents, bad anchors, file matched by two patterns, empty glob, invalid glob, grammar error, token error, cycle, scope conflict, missing parameter, missing service, formatting error (keyword package name), missing output directory, output path is a directory, plus valid/empty inputs. Thorough adds system-call fault injection with strace (n-th openat/read on inputs, openat/write on -o failing with EACCES/EIO/EMFILE/EROFS/ENOSPC). distinct = distinct (fault class, flags, pre-state, config); non-trivial = the run involves a fault or a pre-existing -o"
 	c.Assumptions = []string{"the process boundary (exit code, stdout, stderr, file system) is what users observe", "flag-parsing failures (missing -i/-o) are outside the statement ('given its required flags')", "strace injection replaces the system call's result without executing it"}
 	w := c.W
 	r := rand.New(rand.NewSource(c.Seed))
@@ -89,6 +89,44 @@ func checkC10(c *Ctx) error {
 			write(filepath.Join(d, "a.yaml"), "services:\n  a: [unclosed\n")
 			return []string{"a.yaml"}
 		}, expectOK: always(false)},
+		// well-formed YAML of the wrong shape for typed fields: the YAML library reports all mismatches of a document in ONE
+		// multi-line error
+		{name: "wrong-shape-one", prepare: func(d string) []string {
+			write(filepath.Join(d, "a.yaml"), []string{"parameters:\n  - host: localhost\n  - port: 8080\n", "services: just a string\n", "meta: [pkg, main]\n", "decorators: {tag: x}\n",
+				"services:\n  a:\n    constructor: [New]\n", "services:\n  a:\n    value: X\n    arguments: oops\n", "meta:\n  imports: [a, b]\n", "services:\n  a:\n    value: X\n    todo: maybe\n"}[r.Intn(8)])
+			return []string{"a.yaml"}
+		}, expectOK: always(false)},
+		{name: "wrong-shape-many", prepare: func(d string) []string {
+			write(filepath.Join(d, "a.yaml"), "meta:\n  pkg: [x]\n  imports: oops\n  functions: [f]\nparameters:\n  - host: localhost\n  - port: 8080\nservices:\n  a:\n    constructor: {x: y}\n    arguments: nope\n    todo: perhaps\n  b:\n    getter: [G]\n    must_getter: 7.5\ndecorators:\n  x: y\n")
+			return []string{"a.yaml"}
+		}, expectOK: always(false)},
+		{name: "valid-and-wrong-shape", prepare: func(d string) []string {
+			write(filepath.Join(d, "a.yaml"), valid())
+			write(filepath.Join(d, "b.yaml"), "parameters:\n  - host: localhost\n  - port: 8080\nservices: [a, b]\n")
+			return []string{"a.yaml", "b.yaml"}
+		}, expectOK: always(false)},
+		{name: "two-wrong-shape-files", prepare: func(d string) []string {
+			write(filepath.Join(d, "a.yaml"), "parameters: [1, 2]\nservices: 5\n")
+			write(filepath.Join(d, "b.yaml"), "meta: x\ndecorators: {a: b}\nparameters: 7\n")
+			return []string{"*.yaml"}
+		}, expectOK: always(false)},
+		// inputs on which the statement fixes no verdict: only the contract is judged
+		{name: "yaml-duplicate-key", prepare: func(d string) []string {
+			write(filepath.Join(d, "a.yaml"), "parameters:\n  a: 1\n  a: 2\nservices:\n  s: {value: X}\n  s: {value: Y}\n")
+			return []string{"a.yaml"}
+		}},
+		{name: "yaml-unknown-fields", prepare: func(d string) []string {
+			write(filepath.Join(d, "a.yaml"), "unknown_top: 1\nmeta:\n  nope: 2\nservices:\n  s: {value: X, colour: red, size: 3}\n")
+			return []string{"a.yaml"}
+		}},
+		{name: "yaml-multi-document", prepare: func(d string) []string {
+			write(filepath.Join(d, "a.yaml"), "parameters:\n  a: 1\n---\nparameters: [broken]\n---\nservices: 5\n")
+			return []string{"a.yaml"}
+		}},
+		{name: "yaml-bad-anchors", prepare: func(d string) []string {
+			write(filepath.Join(d, "a.yaml"), "parameters:\n  a: *nowhere\n  b: &x [*x]\n")
+			return []string{"a.yaml"}
+		}},
 		{name: "valid-and-unparsable", prepare: func(d string) []string {
 			write(filepath.Join(d, "a.yaml"), valid())
 			write(filepath.Join(d, "b.yaml"), "\t- : :\n")
@@ -200,7 +238,10 @@ func checkC10(c *Ctx) error {
 		for _, b := range run.Contract() {
 			c.Violate(sig("contract:"+sigWords(b)), fmt.Sprintf("%s flags=%v pre=%s: %s", j.cs.name, j.flags, j.pre, b), files)
 		}
-		wantOK := j.cs.expectOK(j.flags)
+		wantOK := run.Res.Exit == 0
+		if j.cs.expectOK != nil {
+			wantOK = j.cs.expectOK(j.flags)
+		}
 		if wantOK && run.Res.Exit != 0 {
 			c.Violate(sig("unexpected-failure"), fmt.Sprintf("%s flags=%v: expected success, exit %d\n%s", j.cs.name, j.flags, run.Res.Exit, run.Res.Stdout), files)
 		}
